@@ -1479,6 +1479,8 @@ def part_e(ctx, stats):
                     nontrivial.add(srcs[k])
                 if gens[k] is not None and gens[k].shapes["store_in_nested_block"]:
                     st["guard_true_with_nested_store"] += 1
+                if gens[k] is not None and gens[k].shapes.get("narrower_store"):
+                    st["guard_true_with_a_narrower_into_wider_store"] = st.get("guard_true_with_a_narrower_into_wider_store", 0) + 1
     stats["control_flow_scripts"] = st
     stats["ctl_distinct_nontrivial"] = len(nontrivial)
     return len(progs) + st["semantics_events"] + st["values_compared"], [srcs[len(fixed)][len(HEADER):]]
@@ -1663,13 +1665,16 @@ def run(ctx: C.Ctx):
                   "has a label equal to its declared type.  Comprehensions: one generator over range(n), no filter, element int/float/bool, "
                   "the list is only read by a subscript in mon.write; theorem guard rhs_guard = guard on the element under var_types[target] = int.  "
                   "Control flow (theorems C02_decl_covers_script_partial / C02_function_body_covers_partial, oracles (e)/(f)): script_guard / "
-                  "fn_guard of Lang/StmtRef.v, evaluated by the EXTRACTED model: with L the var_types table at the end of the scope, every "
-                  "store (x = e, x op= e, x = [comprehension], each target of a tuple assignment) has e inside the expression guard both under "
-                  "the var_types the transpiler holds at that line and under L, both infer the label L holds for x (typing is a fixed point); "
-                  "x op= e has x declared and op is not @; tuple assignments have as many values as names; a name hoisted out of a loop has no "
-                  "other C type in the shared promotion table (promo_ok); return expressions have a scalar label; for function bodies the "
-                  "names visible at the start keep their label to the end (no parameter is re-labelled) and the body calls no user function "
-                  "(ucf_block).  Reference semantics: no break/continue, the target of a for is unbound after its loop."),
+                  "fn_guard of Lang/StmtRef.v, evaluated by the EXTRACTED model: with L the table of DECLARED labels of the scope (the label of "
+                  "the store / hoist that declares each name), every store (x = e, x op= e, x = [comprehension], each target of a tuple "
+                  "assignment) has e inside the expression guard under the var_types G the transpiler holds at that line; its value is covered: "
+                  "every name e reads has in G exactly its declared label (not narrowed, not read before the line that types it) or typing e "
+                  "under L gives the same label; the inferred label is L(x) for a declaring store and AT MOST L(x) (bool < int < float) for a "
+                  "declared x (narrower into wider); x op= e has x declared and op is not @; tuple assignments have as many values as names "
+                  "and store exactly the declared labels; a name hoisted out of an if / a loop ends its block with its declared label and has "
+                  "no other C type in the shared promotion table (hoist_ok, promo_ok); return expressions have a scalar label; for function "
+                  "bodies every parameter ends the body with its signature label and the body calls no user function (ucf_block). "
+                  "Reference semantics: no break/continue, the target of a for is unbound after its loop."),
         "unmodelled": [
             "list comprehensions nested inside another operator (len([...]), [...][0], f([...])) stay EOther in Lang/PyAst.v and are labelled int by the "
             "model (the real code labels them list[...]); range() with 2 or 3 arguments and filtered comprehensions; only right-hand sides that ARE a "
@@ -1688,8 +1693,8 @@ def run(ctx: C.Ctx):
             "a new name declared at column 0 by a tuple assignment that also re-assigns an old name is emitted as a LOCAL of setup() "
             "(not a global); the model lists it with the globals (its scope is C05/C06's subject, its type is compared)",
             "try/except bodies, list variables at statement level (append, element assignment), "
-            "function_param_types carried over between re-parses of the same def, narrower-into-wider stores (a name re-assigned at a "
-            "label BELOW its declared one) stay outside the proved guard: they are covered by oracles (c)/(d) only",
+            "function_param_types carried over between re-parses of the same def; narrower-into-wider stores through a tuple assignment or a "
+            "comprehension (the guard demands the exact declared label there)",
             "_to_c_expr failures (untranslatable right-hand sides abort the parse before typing) - generators only emit translatable expressions",
             "the annotated-return override (override_return) is modelled and refuted at model level, but is unreachable through parse(): RE_DEF does not "
             "match a header with `-> T` and _parse_function rebuilds the header without it",
